@@ -134,3 +134,55 @@ def _chunks_of(dl, K, r, i):
     if t is None or t != ("sub", sp, ("c", 1)):
         return False, "appended remainder is %s, expected the second part of the split" % pretty(tail[1][0])[:80]
     return True, "np.split at %d*floor(len/%d), rows of %d, remainder last" % (K, K, K)
+
+
+def fd_sender_steps(ctx, L, rule="R-FD-SENDER"):
+    """J1939-22 originator, job pass: what each step must do for the message to arrive.  Every data segment handed to the bus advances the
+    segment index (else the same segment is sent for ever); the end-of-message status follows the last segment of a connection-mode
+    transfer and ends a broadcast (the responder delivers only on it); after the last broadcast segment the session waits to send it."""
+    from .flow import scan_runs
+    from .common import sub, lits
+    from sa.sym import is_const
+    f = L.job
+    st = L.states
+    res = {}
+
+    def note(key, ok, node):
+        if ok:
+            res.setdefault(key, None)
+        elif res.get(key) is None:
+            res[key] = node
+    for r in scan_runs(ctx, L, "_snd_buffer", unroll=1):
+        if r.term in ("raise", "cut"):
+            continue
+        gl = lits(r.guards())
+        state = [x[1] for g, p in gl if p and g[0] == "cmp" and g[1] == "==" and any(y[0] == "sub" and y[2] == ("c", "state") for y in (g[2], g[3]))
+                 for x in (g[2], g[3]) if is_const(x)]
+        if not state:
+            continue
+        name = {v: k for k, v in st.items()}.get(state[0])
+        dts = L.calls(r, "__send_tp_dt")
+        eoms = L.calls(r, "__send_tp_eom_status")
+        adv = [e for _, e in r.effects() if e.kind in ("aug", "store") and e.target[0] == "sub" and e.target[2] == ("c", "next_packet_to_send")]
+        new_state = [e.value[1] for _, e in r.effects() if e.kind == "store" and e.target[0] == "sub" and e.target[2] == ("c", "state") and is_const(e.value)]
+        last = r.recs[-1].ev.node if r.recs else f.node
+        if name in ("SENDING_RTS_CTS", "SENDING_BAM") and dts:
+            note("%s: every segment sent advances the segment index" % name, len(adv) >= len(dts), dts[0][1].node)
+        if name == "SENDING_RTS_CTS" and st.get("WAITING_EOM_ACK") in new_state:
+            note("SENDING_RTS_CTS: the end-of-message status follows the last segment", bool(eoms), last)
+        if name == "SENDING_EOM_STATUS":
+            note("SENDING_EOM_STATUS: the end-of-message status of the broadcast is sent", bool(eoms), last)
+        if name == "SENDING_BAM" and dts:
+            more = any(g[0] == "cmp" and g[1] == "<" and p is False and any(y[0] == "sub" and y[2] == ("c", "num_segments") for y in (g[2], g[3])) for g, p in gl)
+            if more:
+                note("SENDING_BAM: after the last segment the session goes on to send the end-of-message status",
+                     st.get("SENDING_EOM_STATUS") in new_state or bool(eoms), last)
+    for key, bad in sorted(res.items()):
+        inst = "22 job pass, %s" % key
+        if bad is None:
+            ctx.holds(rule, inst)
+        else:
+            ctx.violated(rule, f, inst, "a path of the job pass does not do this: the responder never completes the message (it delivers on the "
+                         "end-of-message status) or the same segment is repeated", bad)
+    if len(res) < 3:
+        ctx.unknown(rule, "%s: sender steps not found (%d)" % (f.qual, len(res)))
